@@ -765,8 +765,17 @@ class Runner:
                 return
             self.findings.append(Finding(prop, f"{what} on {st.get('targets', st.get('env', st.get('args')))} raised {type(err).__name__}: {str(err)[:160]}", i))
             return
+        n0 = len(self.findings)
         self.compare_states(prop, i)
         self.check_invariants(i)
+        if what == "new_composite" and len(self.findings) > n0:
+            # bookkeeping went wrong in a merge while two different Fock subsystems hold equal values:
+            # which subsystems a call registers must not depend on that (C18)
+            tw = self.value_twins()
+            if tw:
+                for f in list(self.findings[n0:]):
+                    if f.prop == "C13":
+                        self.findings.append(Finding("C18", f"merging composite envelopes {st['args']} while subsystems {tw[0]} and {tw[1]} hold equal values: {f.msg}", i))
         sids = set(st.get("targets", []))
         if what in ("env_combine",):
             e = w.envs[st["env"]]
@@ -986,6 +995,18 @@ class Runner:
         self.check_invariants(i)
         touched = self.touched_blocks(before, expected)
         self.frame_check(i, before, touched)
+
+    def value_twins(self):
+        """a pair of different live Fock subsystems that the library's `==` considers equal"""
+        fs = [x for x in self.w.live() if isinstance(x, Fock)]
+        for a in range(len(fs)):
+            for b in range(a + 1, len(fs)):
+                try:
+                    if fs[a] is not fs[b] and bool(fs[a] == fs[b]):
+                        return (self.w.sid(fs[a]), self.w.sid(fs[b]))
+                except Exception:
+                    continue
+        return None
 
     def fresh_keys(self, i, draws, prop):
         """every random draw of a program consumes its own key (PW.Rng: the keys along a run are
